@@ -29,6 +29,13 @@ def run(ctx):
     ctx.info["loop_body_paths"] = len(m.body)
     site_fn = eng.prog.site(m.sm.fi.mod, m.sm.fi.node, m.sm.fi.qualname)
 
+    # "signatures over any other payload never contribute": the message compared is the canonical
+    # form of the payload, and distinct payloads have distinct canonical forms only under an
+    # injective serializer configuration (C07-R1, what determinism and injectivity need)
+    from .c07 import serializer_config
+
+    serializer_config(ctx.sub("DEP-C07"), published=False)
+
     # ---- R1 argument gates
     gates = {"envelope": [], "keylist": [], "threshold": []}
     for p in m.returns + m.early_returns:
